@@ -23,6 +23,8 @@ type C12Case struct {
 	End   int     `json:"end"`
 	Fault string  `json:"fault"`
 	Exact bool    `json:"exact"` // the column must be exactly Start (single-byte illegal character)
+	// Universal: only the universal invariant applies (the fault has no single line)
+	Universal bool `json:"universal,omitempty"`
 }
 
 // c12Layout decorates the canonical layout: blank lines, comment lines and
@@ -96,7 +98,8 @@ func genC12(t *rapid.T) (*C12Case, []string) {
 	c := &C12Case{Files: base.Files}
 	var labels []string
 
-	kind := rapid.SampledFrom([]string{"L", "L", "S", "K", "A", "R", "R"}).Draw(t, "faultkind")
+	kind := rapid.SampledFrom([]string{"L", "L", "S", "K", "A", "R", "R", "M", "M", "U", "E"}).Draw(t, "faultkind")
+	sub0, sub1 := -1, -1 // byte range of the fault inside a multi-line raw token
 	var toks []ast.Tok
 	var f0, f1 int // token index range of the fault
 	positions := c11StmtPositions(prog, r)
@@ -151,6 +154,43 @@ func genC12(t *rapid.T) (*C12Case, []string) {
 		p, _ := pick(func(c11Pos) bool { return true })
 		insertStmt(p, form)
 		c.Class, c.Fault = "syntax", "invalid assignment "+form
+	case "M":
+		// a construct spanning several lines with the fault confined to one of them
+		kit := rapid.SampledFrom(c12MultiLine).Draw(t, "mkit")
+		body := kit.text
+		if rapid.Bool().Draw(t, "mcrlf") {
+			body = strings.ReplaceAll(body, "\n", "\r\n")
+		}
+		sub0 = strings.Index(body, "«")
+		body = strings.Replace(body, "«", "", 1)
+		sub1 = strings.Index(body, "»")
+		body = strings.Replace(body, "»", "", 1)
+		blk := leadRule.C[1]
+		var cands []int
+		for _, s := range blk.C {
+			cands = append(cands, r.First[s])
+		}
+		cands = append(cands, r.Last[blk])
+		at := cands[rapid.IntRange(0, len(cands)-1).Draw(t, "leadpos")]
+		toks = insertToks(r, at, raw(body), sep)
+		f0, f1 = at, at
+		c.Class, c.Fault = kit.class, "multi-line construct: "+kit.name
+		c.Exact = kit.exact
+		labels = append(labels, "fault-inside-multi-line-construct")
+	case "U":
+		// an unterminated string or regex literal as the last thing in the program
+		open := rapid.SampledFrom([]string{"\"abc", "'abc", "\"", "/abc", "'é→"}).Draw(t, "open")
+		toks = insertToks(r, len(r.Toks), raw("c12x = "+open))
+		f0, f1 = len(r.Toks), len(r.Toks)
+		sub0, sub1 = len("c12x = "), len("c12x = "+open)
+		c.Class, c.Fault = "syntax", "unterminated literal "+open
+	case "E":
+		// the program ends too early: only the universal invariant applies
+		tail := rapid.SampledFrom([]string{"{", "BEGIN {", "BEGIN { c12x = (", "BEGIN { c12x = [ 1 ,", "BEGIN { c12x = 1 +", "function", "function c12f (", "BEGIN { if (", "BEGIN { c12x = match ( 1 ) {", "BEGIN { print"}).Draw(t, "tail")
+		toks = insertToks(r, len(r.Toks), raw(tail))
+		f0, f1 = len(r.Toks), len(r.Toks)
+		c.Class, c.Fault = "syntax", "program ends after "+tail
+		c.Universal = true
 	case "R":
 		kits := c11ExprKits()
 		names := sortedKeys(kits)
@@ -185,8 +225,21 @@ func genC12(t *rapid.T) (*C12Case, []string) {
 	}
 	r2 := &ast.Rendering{Toks: toks}
 	text := r2.Join(lay)
-	c.Src = ast.BS(text.Src)
-	c.Start, c.End = text.Start[f0], text.End[f1]
+	// whitespace and comments around the whole program
+	prefix := rapid.SampledFrom([]string{"", "", "\n", "\n\n\n", "  ", "\t", "# leading comment\n", "\n  \n\t", " \n", "\r\n\r\n", "#\n\n   "}).Draw(t, "prefix")
+	suffix := ""
+	if kind != "U" {
+		suffix = rapid.SampledFrom([]string{"", "", "\n", "\n\n", "  ", "\n# trailing comment", " # c", "\r\n", "\n\t\n"}).Draw(t, "suffix")
+	}
+	if prefix != "" {
+		lay.feats["leading-whitespace-or-comment"] = true
+	}
+	c.Src = ast.BS(prefix + text.Src + suffix)
+	c.Start, c.End = len(prefix)+text.Start[f0], len(prefix)+text.End[f1]
+	if sub0 >= 0 {
+		c.Start, c.End = len(prefix)+text.Start[f0]+sub0, len(prefix)+text.Start[f0]+sub1
+	}
+	text.Src = string(c.Src)
 	labels = append(labels, "fault:"+kind)
 	for f := range lay.feats {
 		labels = append(labels, "context:"+f)
@@ -210,6 +263,27 @@ func genC12(t *rapid.T) (*C12Case, []string) {
 	return c, labels
 }
 
+type c12MLKit struct {
+	name, text, class string
+	exact             bool
+}
+
+// the fault sits between « and »
+var c12MultiLine = []c12MLKit{
+	{"division by zero in an array literal", "c12x = [ 1 ,\n  2 ,\n  «1 / 0» ,\n  4 ]", "runtime", false},
+	{"modulo zero in a block", "if ( true ) {\n  c12y = 1\n  c12x = «1 % 0»\n  c12z = 2\n}", "runtime", false},
+	{"function copied into an object literal", "c12x = { a : 1 ,\n  b : «c11fun» ,\n  c : 3 }", "runtime", false},
+	{"function copied into an array literal", "c12x = [ 1 ,\n  «c11fun» ,\n  3 ]", "runtime", false},
+	{"container comparison in an object literal", "c12x = { a : 1 ,\n  b : «[ ] < 1» }", "runtime", false},
+	{"unknown $-variable as a call argument", "c12x = c11fun (\n  1 ,\n  «$nope»\n)", "runtime", false},
+	{"invalid regex in a match case", "c12x = match ( 1 ) {\n  2 => 3 ,\n  c12w => «\"a\" ~ \"(\"»\n}", "runtime", false},
+	{"calling null in an index expression", "c12x = [ 1 , 2 ] [\n  «c12nofn ( )»\n]", "runtime", false},
+	{"illegal character in an array literal", "c12x = [ 1 ,\n  2 «@» ,\n  3 ]", "syntax", true},
+	{"illegal character in an object literal", "c12x = { a : 1 ,\n\n  b «?» : 2 }", "syntax", true},
+	{"invalid assignment in a block", "if ( true ) {\n  c12y = 1\n  «1 = 2»\n}", "syntax", false},
+	{"stray bracket in call arguments", "c12x = c11fun (\n  1 ,\n  «]»\n)", "syntax", false},
+}
+
 func c12Check(c *C12Case) string {
 	src := string(c.Src)
 	var files []run.InFile
@@ -225,6 +299,9 @@ func c12Check(c *C12Case) string {
 	lineStart := strings.LastIndexByte(src[:c.Start], '\n') + 1
 	if msg := c12Universal(src, o); msg != "" {
 		return c.Fault + ": " + msg
+	}
+	if c.Universal {
+		return ""
 	}
 	if o.Line != wantLine {
 		return fmt.Sprintf("%s on line %d is reported on line %d (%q)", c.Fault, wantLine, o.Line, o.Msg)
@@ -254,6 +331,9 @@ func c12Universal(src string, o run.Outcome) string {
 	if o.SrcLine != lines[o.Line-1] {
 		return fmt.Sprintf("the quoted source line is not line %d of the program\n quoted: %q\n line %d: %q (%q)", o.Line, o.SrcLine, o.Line, lines[o.Line-1], o.Msg)
 	}
+	if o.Col < 0 || o.Col > len(o.SrcLine) {
+		return fmt.Sprintf("the reported column %d is not a byte offset into the quoted line %q (%d bytes) (%q)", o.Col, o.SrcLine, len(o.SrcLine), o.Msg)
+	}
 	return ""
 }
 
@@ -280,7 +360,7 @@ func c12CLI(c *C12Case) string {
 
 func TestC12(t *testing.T) {
 	rec := start(t, "C12", "exploration",
-		"multi-line programs (1-60 lines: a leading BEGIN block with multi-byte strings and a Latin-1-letter identifier, then a program from the C07 / C08 / C19 generators) laid out with blank lines, comment lines and trailing comments (ASCII and non-ASCII), LF or CRLF endings, tabs; one single-line fault: L = illegal character (@ ^ ? \\ ` & | é → 日 and raw bytes 0x80-0xF7) at any token boundary; S = stray ) ] => : at a statement start; K = return / break / continue out of context; A = invalid assignment target; R = one of 23 runtime kits as its own statement in the leading BEGIN block (reached by construction). The harness records the byte span of the inserted construct. Oracle: expected error class; Line == the fault's line; SrcLine == exactly that line of the program text (a CRLF line keeps its \\r); lineStart-relative span contains Col (equal to the character's offset for single-byte illegal characters); the same universal invariant (Line >= 1, SrcLine is line Line) on every error. CLI sample: stderr is exactly the three documented lines with the caret under column Col. Non-trivial: fault on line >= 2 preceded by a blank line, comment, CRLF or multi-byte text. distinct = distinct program text.")
+		"multi-line programs (1-60 lines: a leading BEGIN block with multi-byte strings and a Latin-1-letter identifier, then a program from the C07 / C08 / C19 generators) laid out with blank lines, comment lines and trailing comments (ASCII and non-ASCII), LF or CRLF endings, tabs; one single-line fault: L = illegal character (@ ^ ? \\ ` & | é → 日 and raw bytes 0x80-0xF7) at any token boundary; S = stray ) ] => : at a statement start; K = return / break / continue out of context; A = invalid assignment target; R = one of 23 runtime kits as its own statement in the leading BEGIN block (reached by construction); M = a construct spanning several lines (array / object literal, call arguments, block, match) with the fault (runtime or syntax) confined to one inner line; U = an unterminated string or regex as the last thing in the program; E = a program that ends too early (universal invariant only). The whole program is preceded by blank lines, indentation or a comment line and followed by trailing newlines, blanks or a comment without newline. The harness records the byte span of the inserted construct. Oracle: expected error class; Line == the fault's line; SrcLine == exactly that line of the program text (a CRLF line keeps its \\r); lineStart-relative span contains Col (equal to the character's offset for single-byte illegal characters); the same universal invariant (Line >= 1, SrcLine is line Line, 0 <= Col <= len(SrcLine)) on every error. CLI sample: stderr is exactly the three documented lines with the caret under column Col. Non-trivial: fault on line >= 2 preceded by a blank line, comment, CRLF or multi-byte text. distinct = distinct program text.")
 	defer rec.Finish()
 	rec.Assume("the harness renderer's recorded token offsets are the byte span of the inserted construct")
 	replay := func(raw json.RawMessage) error {
@@ -341,7 +421,7 @@ func TestC12(t *testing.T) {
 			rt.Fatalf("%s\n%s", msg, c.Src)
 		}
 	})
-	check(rec, "cli-diagnostic", scale(150, 6000), func(rt *rapid.T) {
+	check(rec, "cli-diagnostic", scale(300, 8000), func(rt *rapid.T) {
 		c, labels := genC12(rt)
 		msg := c12CLI(c)
 		rec.Case("cli\x00"+string(c.Src), true, append(labels, "cli")...)
